@@ -59,6 +59,31 @@ def run(ctx):
         "coros = [maybe_await(get_index()) for get_index in indices]" in txt
     ctx.ob("C45.D2-single-min-index", cname(col, None, "one get_index per collected object feeds the minimum"), ok,
            "" if ok else "the minimum is not taken over every collected object", where=where(col, col.node))
+    # the minimum index really reaches the devices: the forwarding helper passes `index` on as it is.  0 is a valid common index
+    # (first collect after kick-off): anything that treats the index by truthiness drops it, and every detector then describes
+    # all it has written instead of stopping at the common minimum
+    mc = rm.repo.func("bluesky.utils", "maybe_collect_asset_docs")
+    fwd = [c for c in A.calls_in(mc.node) if isinstance(c.func, ast.Attribute) and c.func.attr == "collect_asset_docs"]
+    br = [s for s in A.walk_stmts(mc.node.body) if isinstance(s, ast.If) and "WritesStreamAssets" in A.norm(s.test)]
+    in_stream = [c for c in fwd if br and any(c in list(ast.walk(x)) for x in br[0].body)]
+    ok = len(in_stream) == 1 and in_stream[0].args and isinstance(in_stream[0].args[0], ast.Name) and in_stream[0].args[0].id == "index"
+    ctx.ob("C45.D2-index-forwarded-unchanged", cname(mc, None, "collect_asset_docs(index, ...) for stream-asset writers"), ok,
+           "" if ok else "the helper no longer hands the index it was given to the device", nontrivial=True, where=where(mc, mc.node))
+    truthy = []
+    for n in ast.walk(mc.node):
+        tests = []
+        if isinstance(n, (ast.If, ast.While, ast.IfExp)):
+            tests.append(n.test)
+        if isinstance(n, ast.BoolOp):
+            tests.extend(n.values)
+        if isinstance(n, ast.UnaryOp) and isinstance(n.op, ast.Not):
+            tests.append(n.operand)
+        for t in tests:
+            if isinstance(t, ast.Name) and t.id == "index":
+                truthy.append(n)
+    ctx.ob("C45.D2-index-forwarded-unchanged", cname(mc, None, "the index is never tested by truthiness (0 is a valid index)"), not truthy,
+           "" if not truthy else f"`{A.short(truthy[0], 60)}` treats index 0 like 'no index': on the first collect the detectors are not held to the common minimum",
+           nontrivial=True, where=where(mc, truthy[0] if truthy else mc.node))
     # D3
     n0 = len(ctx.obligations)
     c05.d2_numbering_is_the_counters(ctx, rm)
@@ -81,6 +106,7 @@ CLAIM = {
 
 BU = "bundlers.py"
 MUTANTS = [
+    ("index 0 dropped by a truthiness test (seed C45-b)", [("utils/__init__.py", "        async for stream_doc in iterate_maybe_async(obj.collect_asset_docs(index, *args, **kwargs)):", "        index_args = (index,) if index else ()\n        async for stream_doc in iterate_maybe_async(obj.collect_asset_docs(*index_args, *args, **kwargs)):")], "C45.D2-index"),
     ("counter set from the detectors' index when several are collected (seed C45-a)", [("bundlers.py", "        else:\n            # Since there are no events or event_pages incrementing the sequence counter, we do it ourselves.\n            self._sequence_counters[stream_name] += indices_difference\n\n    async def backstop_collect", "        elif min_index is None:\n            self._sequence_counters[stream_name] += indices_difference\n        else:\n            self._sequence_counters[stream_name] = min_index + 1\n\n    async def backstop_collect")], "C45.D1"),
     ("multi-detector branch forgets the bump", [("bundlers.py", "        else:\n            # Since there are no events or event_pages incrementing the sequence counter, we do it ourselves.\n            self._sequence_counters[stream_name] += indices_difference\n\n    async def backstop_collect", "        else:\n            pass\n\n    async def backstop_collect")], "C45.D1"),
     ("first detector's index instead of the minimum", [(BU, "            min_index = min(await asyncio.gather(*coros))", "            min_index = (await asyncio.gather(*coros))[0]")], "C45.D2"),
